@@ -376,9 +376,19 @@ func (b *StatefulBlock[I, O, A]) queueAccept() {
 func (b *StatefulBlock[I, O, A]) processAccept(ctx context.Context) error {
 	defer b.vm.acceptedQueueBlocksProcessedWg.Done()
 
-	parent, err := b.vm.GetBlock(ctx, b.Parent())
-	if err != nil {
-		return fmt.Errorf("failed to get %s while accepting %s: %w", b.Parent(), b, err)
+	// The accepted queue is processed in order, so the parent of this block is the
+	// last processed block. Prefer it over a lookup: the lookup misses the accepted
+	// block cache when more blocks are queued than the cache holds, and the parent
+	// rebuilt from the chain index carries no Accepted state.
+	b.vm.metaLock.Lock()
+	parent := b.vm.lastProcessedBlock
+	b.vm.metaLock.Unlock()
+	if parent == nil || !parent.accepted || parent.ID() != b.Parent() {
+		var err error
+		parent, err = b.vm.GetBlock(ctx, b.Parent())
+		if err != nil {
+			return fmt.Errorf("failed to get %s while accepting %s: %w", b.Parent(), b, err)
+		}
 	}
 	if err := b.accept(ctx, parent.Accepted); err != nil {
 		return err
